@@ -134,3 +134,27 @@ Theorem C15_union_with_equal_measure_changes_nothing : forall l r s b s',
   inv3 s -> UnionFindFacts.covers s l -> UnionFindFacts.covers s r -> eg_union l r s = Ok (b, s') -> op_facts s s'.
 Proof. exact eg_union_progress. Qed.
 Print Assumptions C15_union_with_equal_measure_changes_nothing.
+
+(* the searchers premise is discharged (EGraph/MatchFacts.v, KidsFacts.v, MatchAll.v): substitutions returned by the matcher
+   cover their classes whenever the rule patterns mention no slot name of generated form at or above the fresh counter
+   (rules_pre; necessary: counterexample ematch_all_covers_needs_pat_below) *)
+From SE Require Import EGraph.MatchDefs EGraph.Mod4Facts EGraph.MatchFacts EGraph.MatchAll.
+
+Theorem C15_false_means_unchanged_all : forall sched rs s s', sched_sub sched ->
+  inv3 s -> pending s = [] -> kids_ok s -> m4 s -> rules_pre (Model.ctr s) rs ->
+  apply_rewrites_sched sched rs s = Ok (false, s') ->
+  same_graph s s' /\ total_number_of_nodes s' = total_number_of_nodes s /\ obs_same s s'.
+Proof. exact apply_rewrites_false_unchanged_all. Qed.
+Print Assumptions C15_false_means_unchanged_all.
+
+(* Runner::run on the e-graph model: a run that stops as Saturated ends in a state that is the same graph as its
+   predecessor, with the same node count and all equality queries unchanged *)
+Theorem C15_saturated_means_nothing_changed : forall sched rs, sched_sub sched ->
+  forall nodes nclasses hook late lim fuel s r sf, good2 rs s ->
+  runner_run egraph (apply_total sched rs) nodes nclasses hook late lim fuel s = Some (r, sf) ->
+  stop_reason r = Saturated ->
+  exists s_prev, s_prev = steps egraph (apply_total sched rs) (iterations r - 1) s /\
+    sf = snd (apply_total sched rs s_prev) /\ same_graph s_prev sf /\
+    total_number_of_nodes sf = total_number_of_nodes s_prev /\ obs_same s_prev sf.
+Proof. exact run_saturated_same_graph_all_rules. Qed.
+Print Assumptions C15_saturated_means_nothing_changed.
